@@ -363,4 +363,231 @@ theorem submit_cancel_restores_margin (w w' : World) (hk : w.kind = .futures) (s
           exact rowsSum_append_erase _ _
         · rw [getD_upd_other _ _ _ _ hi]
 
+/-! ### several symbols sharing one wallet
+
+`fill_refines` is stated for a world with one position.  A fill on symbol `s` of a world with ANY number of symbols
+is simulated by the one-symbol world that keeps only `s`'s position (`Sim`): every function of
+`Position._on_executed_order` reads and writes the position of its own symbol and the shared wallet only.  So the
+refinement holds for every symbol of every world, and the positions of all other symbols are left untouched. -/
+
+/-- the margin account symbol `s` sees: the shared wallet and its own position -/
+def maAt (w : World) (s : Nat) : MA := ⟨w.wallet, (getD w.pos s).qty, (getD w.pos s).entry⟩
+
+structure Sim (s : Nat) (w w1 : World) : Prop where
+  kind : w1.kind = w.kind
+  fee : w1.fee = w.fee
+  wallet : w1.wallet = w.wallet
+  pos : getD w1.pos 0 = getD w.pos s
+  hs : s < w.pos.length
+  h1 : 0 < w1.pos.length
+
+theorem upd_len {α} (l : List α) (i : Nat) (f : α → α) : (upd l i f).length = l.length := by
+  induction l generalizing i with
+  | nil => rfl
+  | cons x xs ih => cases i <;> simp [upd, ih]
+
+theorem sim_updPos {s : Nat} {w w1 : World} (h : Sim s w w1) (f f1 : Pos → Pos) (hf : f1 (getD w1.pos 0) = f (getD w.pos s)) :
+    Sim s { w with pos := upd w.pos s f } { w1 with pos := upd w1.pos 0 f1 } :=
+  ⟨h.kind, h.fee, h.wallet, by
+    show getD (upd w1.pos 0 f1) 0 = getD (upd w.pos s f) s
+    rw [getD_upd_same _ _ _ h.h1, getD_upd_same _ _ _ h.hs, hf],
+   by show s < (upd w.pos s f).length; rw [upd_len]; exact h.hs,
+   by show 0 < (upd w1.pos 0 f1).length; rw [upd_len]; exact h.h1⟩
+
+theorem sim_updateQty {s : Nat} {w w1 : World} (h : Sim s w w1) (q : Rat) (op : Nat) :
+    Sim s (updateQty w s q op) (updateQty w1 0 q op) := by
+  unfold updateQty
+  apply sim_updPos h
+  rw [h.pos, h.kind, h.fee]
+
+theorem sim_addRealized {s : Nat} {w w1 : World} (h : Sim s w w1) (x : Rat) : Sim s (addRealized w x) (addRealized w1 x) :=
+  ⟨h.kind, h.fee, by show w1.wallet + x = w.wallet + x; rw [h.wallet], h.pos, h.hs, h.h1⟩
+
+theorem sim_openTrade {s : Nat} {w w1 : World} (h : Sim s w w1) (a b : Nat) : Sim s (openTrade w a) (openTrade w1 b) :=
+  ⟨h.kind, h.fee, h.wallet, h.pos, h.hs, h.h1⟩
+
+theorem sim_closeTrade {s : Nat} {w w1 : World} (h : Sim s w w1) (a b : Nat) : Sim s (closeTrade w a) (closeTrade w1 b) := by
+  obtain ⟨a1, a2, a3⟩ := closeTrade_core w a
+  obtain ⟨b1, b2, b3⟩ := closeTrade_core w1 b
+  have ak : (closeTrade w a).kind = w.kind ∧ (closeTrade w a).fee = w.fee := by unfold closeTrade; dsimp only; split <;> exact ⟨rfl, rfl⟩
+  have bk : (closeTrade w1 b).kind = w1.kind ∧ (closeTrade w1 b).fee = w1.fee := by unfold closeTrade; dsimp only; split <;> exact ⟨rfl, rfl⟩
+  exact ⟨by rw [ak.1, bk.1, h.kind], by rw [ak.2, bk.2, h.fee], by rw [a1, b1, h.wallet], by rw [a2, b2, h.pos],
+    by rw [a2]; exact h.hs, by rw [b2]; exact h.h1⟩
+
+/-- the "realise the PnL when futures and an entry price is known" step, on both worlds -/
+def realize (w : World) (k : Kind) (en : Option Rat) (g : Rat → Rat) : World :=
+  match k, en with
+  | .futures, some e => addRealized w (g e)
+  | _, _ => w
+
+theorem sim_realize {s : Nat} {w w1 : World} (h : Sim s w w1) (k : Kind) (en : Option Rat) (g : Rat → Rat) :
+    Sim s (realize w k en g) (realize w1 k en g) := by
+  unfold realize
+  split
+  · exact sim_addRealized h _
+  · exact h
+
+theorem mutClose_eq (w : World) (sym : Nat) (price : Rat) :
+    mutClose w sym price = closeTrade
+      (let w2 := updateQty (realize w w.kind (getD w.pos sym).entry
+          (fun e => Jesse.Gen.estimatePNL (absR (getD w.pos sym).qty) e price (getD w.pos sym).type 0)) sym 0 0
+       { w2 with pos := upd w2.pos sym (fun p => { p with entry := none }) }) sym := by
+  unfold mutClose realize
+  dsimp only
+  cases w.kind <;> cases (getD w.pos sym).entry <;> rfl
+
+theorem mutReduce_eq (w : World) (sym : Nat) (qty price : Rat) :
+    mutReduce w sym qty price =
+      (let w1 := realize w w.kind (getD w.pos sym).entry
+          (fun e => Jesse.Gen.estimatePNL (absR qty) e price (getD w.pos sym).type 0)
+       if (getD w.pos sym).type = .long then updateQty w1 sym (absR qty) 2
+       else if (getD w.pos sym).type = .short then updateQty w1 sym (absR qty) 1
+       else w1) := by
+  unfold mutReduce realize
+  dsimp only
+  cases w.kind <;> cases (getD w.pos sym).entry <;> rfl
+
+theorem sim_mutOpen {s : Nat} {w w1 : World} (h : Sim s w w1) (q price : Rat) : Sim s (mutOpen w s q price) (mutOpen w1 0 q price) := by
+  unfold mutOpen
+  exact sim_openTrade (sim_updateQty (sim_updPos h _ _ (by rw [h.pos])) q 0) s 0
+
+theorem sim_mutClose {s : Nat} {w w1 : World} (h : Sim s w w1) (price : Rat) : Sim s (mutClose w s price) (mutClose w1 0 price) := by
+  rw [mutClose_eq, mutClose_eq, h.pos, h.kind]
+  dsimp only
+  apply sim_closeTrade
+  apply sim_updPos
+  · exact sim_updateQty (sim_realize h _ _ _) 0 0
+  · have := (sim_updateQty (sim_realize h w.kind (getD w.pos s).entry
+        (fun e => Jesse.Gen.estimatePNL (absR (getD w.pos s).qty) e price (getD w.pos s).type 0)) 0 0).pos
+    rw [this]
+
+theorem sim_mutReduce {s : Nat} {w w1 : World} (h : Sim s w w1) (q price : Rat) : Sim s (mutReduce w s q price) (mutReduce w1 0 q price) := by
+  rw [mutReduce_eq, mutReduce_eq, h.pos, h.kind]
+  dsimp only
+  split
+  · exact sim_updateQty (sim_realize h _ _ _) _ 2
+  · split
+    · exact sim_updateQty (sim_realize h _ _ _) _ 1
+    · exact sim_realize h _ _ _
+
+theorem sim_mutIncrease {s : Nat} {w w1 : World} (h : Sim s w w1) (q price : Rat) :
+    Sim s (mutIncrease w s q price) (mutIncrease w1 0 q price) := by
+  unfold mutIncrease
+  dsimp only
+  rw [h.pos]
+  split
+  · exact sim_updateQty (sim_updPos h _ _ (by rw [h.pos])) _ 1
+  · split
+    · exact sim_updateQty (sim_updPos h _ _ (by rw [h.pos])) _ 2
+    · exact sim_updPos h _ _ (by rw [h.pos])
+
+theorem sim_onExecutedCore {s : Nat} {w w1 : World} (h : Sim s w w1) (o o1 : Order) (hs : o.sym = s) (h0 : o1.sym = 0)
+    (hq : o1.qty = o.qty) (hp : o1.price = o.price) (hr : o1.reduceOnly = o.reduceOnly) :
+    Sim s (onExecutedCore w o) (onExecutedCore w1 o1) := by
+  unfold onExecutedCore
+  rw [h0, hs, hq, hp, hr, h.pos]
+  split
+  · exact sim_mutOpen h _ _
+  · split
+    · exact sim_mutClose h _
+    · split
+      · split
+        · exact h
+        · exact sim_mutIncrease h _ _
+      · split
+        · split
+          · split
+            · exact sim_mutClose h _
+            · exact sim_mutOpen (sim_mutClose h _) _ _
+          · exact sim_mutReduce h _ _
+        · exact h
+
+theorem chargeFee_proj (w : World) (o : Order) :
+    (chargeFee w o).kind = w.kind ∧ (chargeFee w o).fee = w.fee ∧ (chargeFee w o).pos = w.pos ∧
+    (chargeFee w o).wallet = (match w.kind with | .futures => w.wallet - absR (o.qty * o.price) * w.fee | .spot => w.wallet) := by
+  cases hk : w.kind <;> simp [chargeFee, hk]
+
+theorem sim_chargeFee {s : Nat} {w w1 : World} (h : Sim s w w1) (o o1 : Order) (hq : o1.qty = o.qty) (hp : o1.price = o.price) :
+    Sim s (chargeFee w o) (chargeFee w1 o1) := by
+  obtain ⟨a1, a2, a3, a4⟩ := chargeFee_proj w o
+  obtain ⟨b1, b2, b3, b4⟩ := chargeFee_proj w1 o1
+  exact ⟨by rw [a1, b1, h.kind], by rw [a2, b2, h.fee], by rw [a4, b4, h.kind, h.wallet, h.fee, hq, hp],
+    by rw [a3, b3, h.pos], by rw [a3]; exact h.hs, by rw [b3]; exact h.h1⟩
+
+/-- REFINEMENT, ANY NUMBER OF SYMBOLS: executing an order of symbol `s` changes the shared wallet and `s`'s position
+    exactly as one fill of the reference margin account that holds `s`'s position — whatever the other symbols hold -/
+theorem fill_refines_any_symbol (w : World) (hk : w.kind = .futures) (o : Order) (hs : o.sym < w.pos.length)
+    (hent : (getD w.pos o.sym).qty ≠ 0 → ∃ e, (getD w.pos o.sym).entry = some e)
+    (hflat : (getD w.pos o.sym).qty = 0 → (getD w.pos o.sym).entry = none)
+    (hro : o.reduceOnly = true → (getD w.pos o.sym).qty ≠ 0) (hq : o.qty ≠ 0) :
+    maAt (onExecuted w o) o.sym = MA.fill w.fee (maAt w o.sym) o.qty o.price o.reduceOnly := by
+  let w1 : World := { w with pos := [getD w.pos o.sym] }
+  let o1 : Order := { o with sym := 0 }
+  have h : Sim o.sym w w1 := ⟨rfl, rfl, rfl, rfl, hs, by show 0 < [getD w.pos o.sym].length; simp⟩
+  have hsim := sim_onExecutedCore (sim_chargeFee h o o1 rfl rfl) o o1 rfl rfl rfl rfl rfl
+  have href := fill_refines w1 hk (getD w.pos o.sym) rfl o1 rfl hent hflat hro hq
+  have e1 : maAt (onExecuted w o) o.sym = maOf (onExecuted w1 o1) := by
+    unfold maAt maOf onExecuted
+    rw [hsim.wallet, hsim.pos]
+  rw [e1, href]
+  rfl
+
+theorem upd_other_getD {α} [Inhabited α] (l : List α) (i j : Nat) (f : α → α) (h : i ≠ j) : getD (upd l i f) j = getD l j :=
+  getD_upd_other l i j f h
+
+/-- … and the positions of all OTHER symbols are left exactly as they were -/
+theorem fill_leaves_other_symbols (w : World) (o : Order) (s' : Nat) (hne : o.sym ≠ s') :
+    getD (onExecuted w o).pos s' = getD w.pos s' := by
+  have hcf : (chargeFee w o).pos = w.pos := by unfold chargeFee; split <;> rfl
+  have huq : ∀ (w : World) q op, getD (updateQty w o.sym q op).pos s' = getD w.pos s' := by
+    intro w q op; unfold updateQty; exact getD_upd_other _ _ _ _ hne
+  have hup : ∀ (w : World) (f : Pos → Pos), getD ({ w with pos := upd w.pos o.sym f } : World).pos s' = getD w.pos s' := by
+    intro w f; exact getD_upd_other _ _ _ _ hne
+  have hct : ∀ (w : World) a, (closeTrade w a).pos = w.pos := fun w a => (closeTrade_core w a).2.1
+  have hot : ∀ (w : World) a, (openTrade w a).pos = w.pos := fun _ _ => rfl
+  have hre : ∀ (w : World) k en g, (realize w k en g).pos = w.pos := by
+    intro w k en g; unfold realize; split <;> rfl
+  have hopen : ∀ (w : World) q price, getD (mutOpen w o.sym q price).pos s' = getD w.pos s' := by
+    intro w q price; unfold mutOpen; rw [hot, huq, hup]
+  have hclose : ∀ (w : World) price, getD (mutClose w o.sym price).pos s' = getD w.pos s' := by
+    intro w price; rw [mutClose_eq]; dsimp only; rw [hct, hup, huq, hre]
+  have hred : ∀ (w : World) q price, getD (mutReduce w o.sym q price).pos s' = getD w.pos s' := by
+    intro w q price; rw [mutReduce_eq]; dsimp only
+    split
+    · rw [huq, hre]
+    · split
+      · rw [huq, hre]
+      · rw [hre]
+  have hinc : ∀ (w : World) q price, getD (mutIncrease w o.sym q price).pos s' = getD w.pos s' := by
+    intro w q price; unfold mutIncrease; dsimp only
+    split
+    · rw [huq, hup]
+    · split
+      · rw [huq, hup]
+      · rw [hup]
+  unfold onExecuted onExecutedCore
+  rw [← hcf]
+  split
+  · exact hopen _ _ _
+  · split
+    · exact hclose _ _
+    · split
+      · split
+        · rfl
+        · exact hinc _ _ _
+      · split
+        · split
+          · split
+            · exact hclose _ _
+            · rw [hopen, hclose]
+          · exact hred _ _ _
+        · rfl
+
+/-- non-vacuity: two symbols; a fill on the second one flips its short of 2 at 50 into a long of 1 at 40 and books
+    +20 minus the fee 0.12, while the first symbol's long stays as it was -/
+example : (let w : World := { (init .futures 1000 (1/1000) 10 2) with pos := [{ qty := 3, entry := some 100 }, { qty := -2, entry := some 50 }] }
+    let o : Order := ⟨0, 1, .buy, .market, 3, 40, false, .active⟩
+    decide (maAt (onExecuted w o) 1 = ⟨1000 - 12/100 + 20, 1, some 40⟩ ∧ getD (onExecuted w o).pos 0 = { qty := 3, entry := some 100 })) = true := by
+  decide +kernel
+
 end C03
